@@ -37,8 +37,9 @@ RULE = ('templates: random trees over atoms (5 distinct waveforms), sequences, r
         'parent_repetition_count / child_repetition_count), vol_fixed_twin (tables identical except that a count is '
         'volatile in one and a fixed number of the same value in the other; a volatile count exactly 1 on a loop '
         'that has to be unrolled).  Plus a stream of single volatile counts updated with '
-        'dyadic non-integer values and a make_compatible stream (atoms of 96/192/384/576 samples, minimal waveform '
-        'length 96..576, quantum 16/32/64/192; modelled in Coq).  Thorough adds the full pipeline grids of the '
+        'dyadic non-integer values, a make_compatible stream (atoms of 96/192/384/576 samples, minimal waveform '
+        'length 96..576, quantum 16/32/64/192; modelled in Coq) and a small duration stream (Loop.duration of the '
+        'root after every update vs. a fresh instantiation; Python oracle, not modelled).  Thorough adds the full pipeline grids of the '
         'families and the exhaustive enumeration of all templates with <= 3 composite nodes (4 composite nodes over a '
         'further reduced alphabet) x all volatile subsets.  Non-trivial = some repetition count is volatile and some '
         'update changes its value.')
@@ -715,6 +716,10 @@ def gen_cases(rng, tier, ctx):
     for i in range(60 if tier == 'quick' else 600):
         cases.append(gen_frac(rng))
     cases.extend(compat_family(tier))
+    # durations reported after an update (spec-only stream, Python oracle): family shapes with the pre-read on / off
+    for idx, (pt, vals, V, ups) in enumerate(fam_zero_mid() + fam_same_param_twice()):
+        if tier == 'thorough' or idx % 3 == 0:
+            cases.append({'kind': 'dur', 'pt': pt, 'vals': dict(vals), 'V': sorted(V), 'ups': ups, 'pre_read': idx % 2 == 0})
     for i in range(120 if tier == 'quick' else 1500):
         c = gen_one(rng, 'tree', rng.choice([2, 3, 3]))
         c['kind'] = 'compat'
@@ -1112,6 +1117,19 @@ def _run_compat(case):
 def py_spec(case, obs):
     """make_compatible keeps volatility (no VolatileModificationWarning) => the updated program plays what a fresh
     instantiation + make_compatible with the new values plays"""
+    if case['kind'] == 'dur':
+        if 'steps' not in obs or not set().union(*[set(us) for us in case['ups']]) <= set(case['V']):
+            return None
+        V0 = set(case['V'])
+        try:
+            if ref_dropped_volatile(case['pt'], env_fn(dict(case['vals'])), lambda x: x in V0):
+                return None                                     # other finding: zero count dropped
+        except KeyError:
+            return None
+        for i, st in enumerate(obs['steps']):
+            if st['fresh'] is not None and st['dur'] != st['fresh']:
+                return 'update %d: the updated program reports duration %s, a fresh instantiation %s' % (i, st['dur'], st['fresh'])
+        return None
     if case['kind'] != 'compat' or 'before' not in obs:
         return None
     b = obs['before']
@@ -1129,9 +1147,38 @@ def py_spec(case, obs):
     return None
 
 
+def _run_dur(case):
+    """Loop.duration of the root and of the first level after every update vs. a fresh instantiation"""
+    pt = build_pt(case['pt'])
+    vals = dict(case['vals'])
+    try:
+        prog = pt.create_program(parameters=dict(vals), volatile=set(case['V']))
+    except _expected():
+        return {'err': True}
+    if prog is None:
+        return {'none': True}
+    pre = [str(prog.duration)] + [str(c.duration) for c in prog] if case.get('pre_read') else None
+    cur = dict(vals)
+    steps = []
+    for us in case['ups']:
+        for k, v in us.items():
+            if k in cur:
+                cur[k] = v
+        _update_tree(prog, us)
+        try:
+            fresh = pt.create_program(parameters=dict(cur), volatile=set(case['V']))
+        except _expected():
+            fresh = None
+        steps.append({'dur': str(prog.duration), 'kids': [str(c.duration) for c in prog],
+                      'fresh': None if fresh is None else str(fresh.duration)})
+    return {'pre': pre, 'steps': steps}
+
+
 def _run(case):
     if case['kind'] == 'frac':
         return _run_frac(case)
+    if case['kind'] == 'dur':
+        return _run_dur(case)
     if case['kind'] == 'compat':
         return _run_compat(case)
     vals = dict(case['vals'])
@@ -1223,6 +1270,8 @@ def g_mod(m):
 def to_coq(case, obs):
     if 'crash' in obs or 'hang' in obs:
         return 'CCrash'
+    if case['kind'] == 'dur':
+        return 'CSpecOnly'
     if case['kind'] == 'compat':
         if 'before' not in obs:
             return 'CCrash'
@@ -1264,6 +1313,8 @@ def _has_vol(t):
 
 
 def nontrivial(case, obs):
+    if case['kind'] == 'dur':
+        return 'steps' in obs and len({st['fresh'] for st in obs['steps']}) > 1
     if case['kind'] == 'frac':
         return 'after' in obs and len(set(obs['after'])) > 0 and any(f == 'nonint' for f in obs['fresh'])
     if case['kind'] == 'compat':
@@ -1298,6 +1349,11 @@ def _has_named_map(p):
 
 def histogram_keys(case, obs):
     keys = [case['kind']]
+    if case['kind'] == 'dur':
+        keys.append('dur:pre_read=%s' % bool(case.get('pre_read')))
+        if 'steps' not in obs:
+            keys.append('dur:' + ('crash' if 'crash' in obs or 'hang' in obs else 'no_program'))
+        return keys
     if case['kind'] == 'frac':
         for f in obs.get('fresh', []):
             keys.append('frac:fresh=%s' % (f if isinstance(f, str) else 'count'))
@@ -1351,6 +1407,23 @@ def histogram_keys(case, obs):
 
 def classify(case, obs):
     """id of the known finding a failing case belongs to (precise predicates on the input / recorded call sites)"""
+    if case['kind'] == 'dur':
+        # the reference duration of the template changes at some update (then a cached body duration above the
+        # volatile count is out of date)
+        V0 = set(case['V'])
+        cur = dict(case['vals'])
+        try:
+            durs = [ref_size(ref_inst(case['pt'], env_fn(cur), lambda x: x in V0))[0]]
+            for us in case['ups']:
+                for k2, v in us.items():
+                    if k2 in cur:
+                        cur[k2] = v
+                durs.append(ref_size(ref_inst(case['pt'], env_fn(cur), lambda x: x in V0))[0])
+        except KeyError:
+            return None
+        if len(set(durs)) > 1:
+            return 'C15-volatile-update-stale-duration'
+        return None
     if case['kind'] == 'compat':
         b = obs.get('before', {})
         # volatile loops vanished into a concatenated waveform and no VolatileModificationWarning was emitted, and an
@@ -1553,8 +1626,9 @@ MANIFEST = {
                   'conditional on equal decision lists; sufficient conditions proved: SINGLE mode (unconditional), '
                   '"the first compilation took only DSkip decisions" (C15_tabor_compile_skip_only) and "all sequence '
                   'tables already have a valid length" (C15_prepare_decisions_long_tables); the equal-sharing '
-                  'hypothesis of the parser has no input-level condition yet.  5 known findings '
+                  'hypothesis of the parser has no input-level condition yet.  6 known findings '
                   '(zero count dropped, merged negative product, shared volatile table, non-integer update rounds, '
+                  'stale cached durations of the ancestors after an update (new, Python-side oracle only), '
                   'make_compatible bakes a volatile child without warning: repair prepared, not landed because C06 '
                   'observes the warning flag); 4 Tabor defects repaired in round 2.',
     'technique': 'Coq proof over a hand-written model + exact correspondence check against qupulse',
